@@ -59,7 +59,7 @@ class RailroadNodeWalker(NodeWalker):
 
         params = ''
         if rule.params:
-            params = ','.join(p for p in rule.params)
+            params = ','.join(str(p) for p in rule.params)
 
         kwparams = ''
         if rule.kwparams:
